@@ -3,6 +3,13 @@ import HappyProofs.C09.SyncInv
 import HappyProofs.C09.PoolInv
 import HappyProofs.C09.ConcInv
 import HappyProofs.C09.ExtraProps
+import HappyProofs.C09.SyncProps
+import HappyProofs.C09.PreemptSpec
+import HappyProofs.C09.ThreadPoolSpec
+import HappyProofs.C09.WaitSilent
+import HappyProofs.C09.BulkheadSpec
+import HappyProofs.C09.ConcSpec
+import HappyProofs.C09.PoolDistinct
 /-!
 # C09 — property theorems
 
